@@ -56,6 +56,7 @@ func C14(c *core.Ctx) {
 	c.Explain = "Algebraic laws over all names (total order, round trips) are NOT decided. Decided structural necessary conditions: (R14.1) Component.Compare decides by Typ, then len(Val), then bytes.Compare(lhs.Val, rhs.Val): the byte comparison is reachable only on the edges asserting equal types and equal lengths, the constant -1 is returned only under 'lhs smaller' tests and +1 never under them; Component.Equal tests the same three criteria; Name.Compare/Equal/IsPrefix compare component i with component i, stop at the first difference and break ties by length with the right sign; HashInto feeds the 8-byte type before the value, Name.Hash and Name.PrefixHash reset once and feed every component in order, PrefixHash records a sum after each component; (R14.2) in the URI parsers every constant or len-1 or loop-variable index into the input string or into a strings.Split result is under a dominating length guard in the function or at every caller; (R14.3) component types 0 and > 0xffff are rejected."
 	c.RuleText = "instances: the comparison/equality/hash functions of enc.Component and enc.Name, every index operation in the 10 URI-parsing functions. Non-trivial = has a branch edge, operand pair or index form to decide."
 	p := c.P
+	c14Round4(c)
 	// ---- R14.9 (shared with C15 R15.4) containers keyed by a string form of a name use one
 	// form for insert, find and remove: two forms that disagree for some component types
 	// give the container a notion of name identity different from Name.Equal
@@ -777,3 +778,108 @@ func elemIndexOf(v, container ssa.Value) ssa.Value {
 }
 
 func lenGreaterAtom(x ssa.Value, k int64) *core.Atom { return core.AtomLenGreater(x, k) }
+
+// c14Round4 — rules added for defects a bug-hunting agent demonstrated on the unmodified tree.
+//
+// R14.10 the URI form of a pattern agrees with the URI form of a name: NamePattern.String
+// applies the trailing-"/" rule (a final empty generic component) to every dynamic type the
+// pattern parsers put into a pattern — they store Component by value, so a type assertion
+// on *Component alone never fires and "/a//" prints as "/a/" (one component when parsed back).
+//
+// R14.11 the name a string parser returns is used only when parsing succeeded: no use of
+// the result of NameFromStr / ComponentFromStr / NamePatternFromStr / ComponentPatternFromStr
+// sits on the edge asserting err != nil (an inverted test stores the nil name for every
+// malformed string and refuses every well-formed one).
+func c14Round4(c *core.Ctx) {
+	p := c.P
+	// ---- R14.10
+	stored := map[string]bool{}
+	for _, name := range []string{"NamePatternFromStr", "ComponentPatternFromStr"} {
+		fn := c.Fn("R14.10", "std/encoding", "", name)
+		if fn == nil {
+			continue
+		}
+		core.InstrsDeep(fn, func(in ssa.Instruction) {
+			if mi, ok := in.(*ssa.MakeInterface); ok {
+				if nt, isN := mi.Type().(*types.Named); isN && nt.Obj().Name() == "ComponentPattern" {
+					t := mi.X.Type().String()
+					if strings.HasSuffix(t, "encoding.Component") {
+						stored[strings.TrimPrefix(t, core.ModPath+"/")] = true
+					}
+				}
+			}
+		})
+	}
+	if ps := c.Fn("R14.10", "std/encoding", "NamePattern", "String"); ps != nil {
+		asserted := map[string]bool{}
+		core.InstrsDeep(ps, func(in ssa.Instruction) {
+			if ta, ok := in.(*ssa.TypeAssert); ok {
+				t := ta.AssertedType.String()
+				if strings.HasSuffix(t, "encoding.Component") {
+					asserted[strings.TrimPrefix(t, core.ModPath+"/")] = true
+				}
+			}
+		})
+		missing := ""
+		for t := range stored {
+			if !asserted[t] {
+				missing = t
+			}
+		}
+		c.Decide(len(stored) > 0 && missing == "", "R14.10", "pattern-uri-trailing-empty-component", p.Pos(ps.Pos()), fmt.Sprintf("NamePattern.String inspects the last element under every dynamic type the pattern parsers store (%d)", len(stored)), "NamePattern.String applies the trailing-\"/\" rule only to other dynamic types than the one the pattern parsers store ("+missing+"): a pattern ending in the empty generic component prints without its trailing slash and parses back with one component fewer (\"/a//\" → \"/a/\")")
+	}
+	// ---- R14.11
+	parsers := map[string]bool{"NameFromStr": true, "ComponentFromStr": true, "NamePatternFromStr": true, "ComponentPatternFromStr": true}
+	nCalls := 0
+	for _, pk := range p.All {
+		for _, fn := range p.FuncsIn(pk.PkgPath) {
+			if strings.HasSuffix(p.File(fn.Pos()), "_test.go") {
+				continue
+			}
+			core.Instrs(fn, func(in ssa.Instruction) {
+				cl, ok := in.(*ssa.Call)
+				if !ok {
+					return
+				}
+				id, ok := core.Callee(&cl.Call)
+				if !ok || id.Pkg != "std/encoding" || !parsers[id.Name] {
+					return
+				}
+				var res, errv ssa.Value
+				for _, r := range core.Refs(cl) {
+					if ex, isE := r.(*ssa.Extract); isE {
+						if ex.Index == 0 {
+							res = ex
+						} else {
+							errv = ex
+						}
+					}
+				}
+				if res == nil || errv == nil {
+					return
+				}
+				nCalls++
+				failed := atomNonNil("parse error", errv)
+				bad := ""
+				for _, f := range core.EdgeFacts(fn, failed) {
+					if !f.Holds || len(f.E.To.Preds) != 1 {
+						continue
+					}
+					for _, u := range core.Refs(res) {
+						if _, isPhi := u.(*ssa.Phi); isPhi {
+							continue
+						}
+						if u.Block() == f.E.To || f.E.To.Dominates(u.Block()) {
+							bad = c.Pos(u)
+						}
+					}
+				}
+				if bad != "" {
+					c.Viol("R14.11", "parsed-name-used-only-on-success:"+core.FuncName(fn)+":"+id.Name, bad, core.FuncName(fn)+" uses the value returned by "+id.Name+" on the path on which it reported an error (inverted test): every malformed string is accepted as the nil name and every well-formed URI is refused")
+				}
+			})
+		}
+	}
+	c.Decide(true, "R14.11", "parsed-name-used-only-on-success", "-", fmt.Sprintf("%d string-parser calls with a checked error inspected", nCalls), "")
+	c.Floor("R14.11", "string-parser calls with a checked error", nCalls, 10)
+}
